@@ -47,7 +47,9 @@ type Session struct {
 	// BasePathFS: the base path (must never show up in results or errors) and whether it did during the call
 	BasePath string
 	leak     bool
-	SubDir   string // directory of the Sub view the calls go through
+	SubDir   string   // directory of the Sub view the calls go through
+	SubDir2  string   // directory of a second view of the same parent ("" = none); calls with V == 8 go through it
+	FS2      avfs.VFS // the second view
 	// Inline makes Exec run the call on the calling goroutine (no per-call watchdog)
 	Inline bool
 	// ProjFS, when set, is the administrator's file system the projection reads through (the acting user may not
@@ -430,6 +432,10 @@ func (s *Session) exec(c Call, res *Res) {
 	vfs := s.FS
 	if c.V == 9 && s.Wrap == "sub" && s.Base != nil {
 		vfs = s.Base // a call on the parent of the view (C11's interleavings)
+	}
+
+	if c.V == 8 && s.Wrap == "sub" && s.FS2 != nil {
+		vfs = s.FS2 // a call through the second view
 	}
 	p := s.render(c.P)
 	q := s.render(c.Q)
